@@ -619,14 +619,15 @@ int SQLITE3::Handle::bind(bloc::Tuple& args)
         sqlite3_bind_double(_stmt, i, *v.numeric());
         break;
       case Type::LITERAL:
-        sqlite3_bind_text(_stmt, i, v.literal()->c_str(), v.literal()->size(), SQLITE_STATIC);
+        /* the statement is executed later, the arguments may be gone by then */
+        sqlite3_bind_text(_stmt, i, v.literal()->c_str(), v.literal()->size(), SQLITE_TRANSIENT);
         break;
       case Type::TABCHAR:
         /* an empty bytes array has no data pointer, which would bind NULL */
         if (v.tabchar()->empty())
           sqlite3_bind_zeroblob(_stmt, i, 0);
         else
-          sqlite3_bind_blob(_stmt, i, v.tabchar()->data(), v.tabchar()->size(), SQLITE_STATIC);
+          sqlite3_bind_blob(_stmt, i, v.tabchar()->data(), v.tabchar()->size(), SQLITE_TRANSIENT);
         break;
       default:
         break;
